@@ -45,6 +45,7 @@ from explorerscript.ssb_converting.ssb_data_types import (
     SsbOpParamPositionMarker,
     SsbOpParamFixedPoint,
 )
+from explorerscript.ssb_converting.ssb_special_ops import OPS_WITH_JUMP_TO_MEM_OFFSET
 from explorerscript.util import open_utf8
 
 
@@ -65,12 +66,20 @@ class RoutineDict(TypedDict):
     ops: list[OpDict]
 
 
-def build_ops(ops: list[SsbOperation]) -> list[OpDict]:
+def build_ops(ops: list[SsbOperation], op_positions: dict[int, int] | None = None) -> list[OpDict]:
+    """
+    op_positions maps the compiler's internal op offsets to the position of the op in the output (1-based, counted
+    over all routines). Jump targets are printed as these positions; the internal offsets have gaps wherever the
+    compiler dropped an operation.
+    """
     out_ops: list[OpDict] = []
     for op in ops:
         out_op: OpDict = {"opcode": op.op_code.name, "params": []}
-        for param in op.params:
+        jump_param_idx = OPS_WITH_JUMP_TO_MEM_OFFSET.get(op.op_code.name) if op_positions is not None else None
+        for param_idx, param in enumerate(op.params):
             if isinstance(param, int):
+                if param_idx == jump_param_idx and op_positions is not None and param in op_positions:
+                    param = op_positions[param]
                 out_op["params"].append(param)
             elif isinstance(param, SsbOpParamFixedPoint):
                 out_op["params"].append({"type": "FIXED_POINT", "value": param.value})
@@ -94,29 +103,33 @@ def build_routines_json(
     routine_infos: list[SsbRoutineInfo], named_coroutines: list[str], routine_ops: list[list[SsbOperation]]
 ) -> list[RoutineDict]:
     routines: list[RoutineDict] = []
+    op_positions: dict[int, int] = {}
+    for ops in routine_ops:
+        for op in ops:
+            op_positions[op.offset] = len(op_positions) + 1
     for info, name, ops in zip(routine_infos, named_coroutines, routine_ops):
         routine: RoutineDict
         if info.type == SsbRoutineType.COROUTINE:
-            routine = {"type": "COROUTINE", "name": name, "ops": build_ops(ops)}
+            routine = {"type": "COROUTINE", "name": name, "ops": build_ops(ops, op_positions)}
         elif info.type == SsbRoutineType.GENERIC:
-            routine = {"type": "GENERIC", "ops": build_ops(ops)}
+            routine = {"type": "GENERIC", "ops": build_ops(ops, op_positions)}
         elif info.type == SsbRoutineType.ACTOR:
             routine = {
                 "type": "ACTOR",
                 "target_id": info.linked_to if info.linked_to is not -1 else info.linked_to_name,
-                "ops": build_ops(ops),
+                "ops": build_ops(ops, op_positions),
             }
         elif info.type == SsbRoutineType.OBJECT:
             routine = {
                 "type": "OBJECT",
                 "target_id": info.linked_to if info.linked_to is not -1 else info.linked_to_name,
-                "ops": build_ops(ops),
+                "ops": build_ops(ops, op_positions),
             }
         elif info.type == SsbRoutineType.PERFORMER:
             routine = {
                 "type": "PERFORMER",
                 "target_id": info.linked_to if info.linked_to is not -1 else info.linked_to_name,
-                "ops": build_ops(ops),
+                "ops": build_ops(ops, op_positions),
             }
         else:
             raise ValueError(f"invalid routine type {info.type}")
